@@ -174,7 +174,15 @@ class Check(common.Check):
     PROP = 'C16'
     LEAN_TARGETS = ['Sc3Verif.C16.Props']
     LEAN_DIRS = ['Sc3Verif/C16']
-    THEOREMS = ['Sc3Verif.C16.' + t for t in ()]
+    THEOREMS = ['Sc3Verif.C16.' + t for t in (
+        'alloc_free_safe_and_complete', 'inv_reachable', 'inv_init', 'inv_alloc', 'inv_free', 'step_good',
+        'reach_inv', 'reach_of_run', 'alloc_free_never_raise', 'alloc_in_partition',
+        'alloc_disjoint_from_live', 'no_space_only_if_no_run', 'free_run_is_allocatable',
+        'live_ranges_disjoint', 'free_coalesces_and_reusable', 'double_free_noop', 'free_not_live_noop',
+        'choice_oracle_covers_every_candidate', 'blocks_are_live_ranges',
+        'node_id_in_client_range', 'node_id_closed_form', 'node_ids_distinct_in_window',
+        'node_id_repeats_after_window', 'node_ids_disjoint_across_clients',
+        'partition_inside_total', 'partitions_disjoint', 'node_alloc_args', 'clients_never_collide')]
     N_QUICK = 1500
     N_THOROUGH = 40000
     ASSUMPTIONS = [
